@@ -131,6 +131,7 @@ let parse_node (t : string list) : fop * int list =
       | ["i"; i] -> SF_bit (ni i)
       | ["m"] -> SF_msb | ["l"] -> SF_lsb
       | ["u"; w] -> SF_upper (ni w) | ["o"; w] -> SF_lower (ni w)
+      | ["a"] -> SF_abs | ["M"; k] -> SF_mul (ni k) | ["L"; k] -> SF_lt (ni k)
       | _ -> failwith ("bad slice form in " ^ spec) in
     let item it =
       match String.split_on_char ':' it with
